@@ -110,14 +110,26 @@ func downH(line string) string {
 	for _, args := range [][]string{{"sh"}, {"sh", "a b", ""}} {
 		for _, mode := range []interp.ExpMode{0, interp.Arith, interp.Assign, interp.Literal, interp.Pattern, interp.Quote, interp.Assign | interp.Quote, interp.Arith | interp.Quote} {
 			for _, opts := range []interp.Option{interp.NoGlob, interp.NoGlob | interp.NoUnset, 0} {
-				for _, w := range words {
-					env := newEnv(hx(args[0]), "0")
-					env.Args = args
-					env.Opts = opts
-					env.Set("x", "a b*")
-					env.Set("HOME", "/h")
-					if m := try(fmt.Sprintf("Expand(mode=%d)", mode), func() { env.Expand(w, mode) }); m != "" {
-						return m + ":" + hx(printWord(w))
+				// variable values and IFS with invalid bytes and U+FFFD (which compare equal to every invalid byte), an IFS
+				// character one or two bytes after an invalid byte
+				for _, vars := range [][2]string{{"a b*", ""}, {"a\xff b\xfe\xfd:c\xff", " \xff:"}, {"\xff\xfe", "\xff"}, {"a\xfe:b \ufffd", "\ufffd:"}, {"a b", "-"}} {
+					for _, w := range words {
+						env := newEnv(hx(args[0]), "0")
+						env.Args = args
+						env.Opts = opts
+						env.Set("x", vars[0])
+						env.Set("a", vars[0])
+						env.Set("HOME", "/h")
+						switch vars[1] {
+						case "":
+						case "-":
+							env.Set("IFS", "")
+						default:
+							env.Set("IFS", vars[1])
+						}
+						if m := try(fmt.Sprintf("Expand(mode=%d)", mode), func() { env.Expand(w, mode) }); m != "" {
+							return m + ":" + hx(printWord(w)) + ":x=" + hx(vars[0]) + ":IFS=" + hx(vars[1])
+						}
 					}
 				}
 			}
